@@ -36,16 +36,23 @@ theorem badNcomp_iff (n : Nat) : badNcomp false n = true ↔ (n = 0 ∨ 4 < n) :
 
 theorem pyint_shift_unchecked (n : Nat) : badNcomp true n = false := by simp [badNcomp]
 
-/-- **float shifts without a grid**: rejected iff neither the state matrix carries a (truthy) grid nor the operator one -/
-theorem noGrid_iff (truthy : K → Bool) (smGrid opGrid : Option K) :
-    noGrid truthy smGrid opGrid = true ↔ (∀ g, smGrid = some g → truthy g = false) ∧ opGrid = none := by
+/-- **float shifts without a grid**: accepted iff the grid in force (the state matrix's if it has one, else the
+    operator's) exists and is positive; a grid of size 0 is rejected like a missing one -/
+theorem noGrid_iff (positive : K → Bool) (smGrid opGrid : Option K) :
+    noGrid positive smGrid opGrid = false ↔
+      (∃ g, smGrid = some g ∧ positive g = true) ∨ (smGrid = none ∧ ∃ g, opGrid = some g ∧ positive g = true) := by
   unfold noGrid
   cases smGrid with
-  | none => simp
-  | some g =>
-    by_cases hg : truthy g = true
-    · simp [hg]
-    · simp [hg]
+  | none =>
+    cases opGrid with
+    | none => simp
+    | some g => simp
+  | some g => simp
+
+/-- the state matrix's grid takes precedence, even when it is invalid -/
+theorem noGrid_sm_precedence (positive : K → Bool) (g : K) (opGrid : Option K) (h : positive g = false) :
+    noGrid positive (some g) opGrid = true := by
+  simp [noGrid, h]
 
 /-- **malformed state matrices** (at least 2 axes): last axis must be 3 and the state axis odd -/
 theorem badStatesShape_iff (lead : List Nat) (n c : Nat) :
